@@ -22,7 +22,7 @@
 From mathcomp Require Import all_ssreflect all_algebra.
 From Verif.lib Require Import MatOps MatMC MatLemmas.
 From Verif.model Require Import Kalman.
-From Verif.proofs Require Import KalmanProofs SmootherProofs.
+From Verif.proofs Require Import KalmanProofs SmootherProofs BatchProofs.
 Set Implicit Arguments.
 Unset Strict Implicit.
 Import GRing.Theory.
@@ -105,6 +105,15 @@ move=> E; split; [exact: xi_med_rows | exact: xi_med_entry | exact: xi_med_sub |
 Qed.
 
 End Mapping.
+
+(* non-vacuity: a concrete one-dimensional system with two observed periods (T = P = Z = H = 1, unit
+   variances, any data y1 y2, over any real field) meets every hypothesis used above *)
+Example C08_hypotheses_satisfiable (y1 y2 : F) :
+  let ps := [:: ex_period flog flog2pi y1; ex_period flog flog2pi y2] in
+  let Q : 'M[F]_1 := 1%:M in
+  [/\ is_sym Q, all_ok ps & all_unit (@kf_run M 1 1 0 Q ps)].
+Proof. exact: ex_hypotheses. Qed.
+
 End C08.
 
 Print Assumptions C08_smooth_alt.
